@@ -36,6 +36,7 @@ META = {
                     "re.match, or one re.match with two groups); any other shape is reported inconclusive",
                     "stub aligner for the realign emitter"],
 }
+META["explanation"] += '  value-characters / name-characters: two characters of a Z value (menu % s : blank backslash { 0x1f e-acute * =) and of the read name (menu blank 0x1f NBSP % : | VT s) chosen by the solver, per emitter; the read name must come out cut at its first blank and only there.'
 
 MENU = ["tp:A:S", "ws:Z:trailing ", "ds:i:7", "NM:i:-3", "dv:f:-1.5e-3", "zd:Z:a b_#.-:*/", "ba:B:i,1,-2", "ch:A:*", "hx:H:1AE3", "id:f:.5", "s1:i:12"]
 TYPES = "AifZHB"
@@ -64,6 +65,8 @@ def harnesses(tier):
             hs.append({"id": "emit/%s/%s" % (em, cg), "params": {"kind": "emit", "emitter": em, "cg": cg, "slots": slots}, "timeout": 900,
                        "twin": (em, cg) == ("view-n", "cg-first")})
         hs.append({"id": "emit/%s/repeated-tag" % em, "params": {"kind": "emit", "emitter": em, "cg": "cg-last", "slots": 0, "repeat": True}, "timeout": 300})
+        hs.append({"id": "emit/%s/value-characters" % em, "params": {"kind": "emit", "emitter": em, "cg": "cg-last", "slots": 0, "chars": "value"}, "timeout": 600})
+        hs.append({"id": "emit/%s/name-characters" % em, "params": {"kind": "emit", "emitter": em, "cg": "cg-last", "slots": 0, "chars": "name"}, "timeout": 600})
         hs.append({"id": "emit/%s/ds-tag" % em, "params": {"kind": "emit", "emitter": em, "cg": "cg-last", "slots": 0, "ds": True}, "timeout": 300})
     return hs
 
@@ -251,15 +254,50 @@ class StubAligner:
         return StubRes()
 
 
+CH = ["%", "s", ":", " ", chr(92), "{", chr(0x1f), chr(0xe9), "*", "="]
+NAMECH = [" ", chr(0x1f), chr(0xa0), "%", ":", "|", chr(0x0b), "s"]
+NAME = ["r1"]
+
+
+def out_name():
+    """the documented exception: the read name is cut at its first blank (and only there)"""
+    return NAME[0].split(" ")[0]
+
+
+def build_opt(params, a, pick_):
+    """optional fields (and, as a side effect, the read name) of the harness instance chosen by the selector values a"""
+    NAME[0] = "r1"
+    slots = params["slots"]
+    opt = []
+    for i in range(slots):
+        x = pick_(a[i], MENU + [None])
+        if x is not None and x not in opt:
+            opt.append(x)
+    if params.get("repeat"):
+        opt = ["xx:i:1", "yy:Z:mid", "xx:i:2"]
+    if params.get("ds"):
+        opt = ["tp:A:P", "ds:Z::3*at:5", "NM:i:0"]
+    if params.get("chars") == "value":
+        opt = ["NM:i:1", "zz:Z:a" + pick_(a[0], CH) + pick_(a[1], CH) + "b", "yy:Z:" + pick_(a[1], CH) + pick_(a[0], CH)]
+    if params.get("chars") == "name":
+        NAME[0] = "rd" + pick_(a[0], NAMECH) + "x" + pick_(a[1], NAMECH) + "y"
+        opt = ["NM:i:1"]
+    if params["cg"] == "cg-first":
+        opt = ["cg:Z:10="] + opt
+    elif params["cg"] == "cg-last":
+        opt = opt + ["cg:Z:10="]
+    return opt
+
+
 def emit(emitter, opt):
     """returns the list of optional fields of the re-emitted record"""
     V, CV, R, GA = M["V"], M["CV"], M["R"], M["GA"]
     e = stubs.env()
     qe = 70000 if emitter == "realign-long" else 10
     if emitter == "to_unstable":
-        cols = "r1\t%d\t0\t%d\t-\tchr1\t15\t2\t12\t9\t10\t60" % (qe + 5, qe)
+        cols = "%s\t%d\t0\t%d\t-\tchr1\t15\t2\t12\t9\t10\t60" % (NAME[0], qe + 5, qe)
     else:
-        cols = "r1\t%d\t0\t%d\t+\t<s2<s1\t15\t3\t13\t9\t10\t60" % (qe + 5, qe)
+        cols = "%s\t%d\t0\t%d\t+\t<s2<s1\t15\t3\t13\t9\t10\t60" % (NAME[0], qe + 5, qe)
     line = cols + "".join("\t" + x for x in opt) + "\n"
     e.files["in.gaf"] = stubs.MFile("text", [line], [0, 100])
     e.files["g.gfa"] = stubs.MFile("text", GFA_LINES, None)
@@ -306,6 +344,8 @@ def check_emit(emitter, opt):
     f, err = emit(emitter, opt)
     if err:
         return err
+    if f[0] != out_name():
+        return "read name %r re-emitted as %r" % (NAME[0], f[0])
     got = [x for x in f[12:] if not x.startswith("ds:Z:")]  # the ds:Z tag may be dropped (documented) or kept
     want = expected_fields(emitter, opt)
     hascg = any(x.startswith("cg:Z:") for x in want)
@@ -333,21 +373,13 @@ def build(params):
     slots = params["slots"]
     args = [("t%d" % i, "int") for i in range(slots)]
     pre = ["0 <= t%d <= %d" % (i, len(MENU)) for i in range(slots)]
+    if params.get("chars"):
+        n = len(CH if params["chars"] == "value" else NAMECH) - 1
+        args = [("c0", "int"), ("c1", "int")]
+        pre = ["0 <= c0 <= %d and 0 <= c1 <= %d" % (n, n)]
 
     def case(*a):
-        opt = []
-        for i in range(slots):
-            x = pick(a[i], MENU + [None])
-            if x is not None and x not in opt:
-                opt.append(x)
-        if params.get("repeat"):
-            opt = ["xx:i:1", "yy:Z:mid", "xx:i:2"]
-        if params.get("ds"):
-            opt = ["tp:A:P", "ds:Z::3*at:5", "NM:i:0"]
-        if params["cg"] == "cg-first":
-            opt = ["cg:Z:10="] + opt
-        elif params["cg"] == "cg-last":
-            opt = opt + ["cg:Z:10="]
+        opt = build_opt(params, a, pick)
         return check_emit(em, opt)
 
     return Harness(args, pre, case, fuel=50)
@@ -439,24 +471,14 @@ def replay(params, model, wd):
                 "files": {"gaf": line, "output": out[0]}}
     # emitters: rerun the concrete scenario on the unmodified modules with the environment stubs
     a = model["args"]
-    slots = params["slots"]
-    opt = []
-    for i in range(slots):
-        x = (MENU + [None])[a[i]]
-        if x is not None and x not in opt:
-            opt.append(x)
-    if params.get("repeat"):
-        opt = ["xx:i:1", "yy:Z:mid", "xx:i:2"]
-    if params.get("ds"):
-        opt = ["tp:A:P", "ds:Z::3*at:5", "NM:i:0"]
-    if params["cg"] == "cg-first":
-        opt = ["cg:Z:10="] + opt
-    elif params["cg"] == "cg-last":
-        opt = opt + ["cg:Z:10="]
+    opt = build_opt(params, a, lambda i, menu: menu[i])
     em = params["emitter"]
     res = real_emit(wd, em, opt)
     if res.get("error"):
         return {"reproduced": True, "key": "C16:emit:%s:exception" % em, "what": res["error"]}
+    if res["fields"][0] != out_name():
+        return {"reproduced": True, "key": "C16:emit:read-name", "what": "%s re-emits the read name %r as %r (the documented cut is at the first blank only)" % (
+            em, NAME[0], res["fields"][0])}
     got = [x for x in res["fields"][12:] if not x.startswith("ds:Z:")]
     want = expected_fields(em, opt)
     hascg = any(x.startswith("cg:Z:") for x in want)
@@ -487,9 +509,9 @@ def real_emit(wd, em, opt):
 
     qe = 70000 if em == "realign-long" else 10
     if em == "to_unstable":
-        cols = "r1\t%d\t0\t%d\t-\tchr1\t15\t2\t12\t9\t10\t60" % (qe + 5, qe)
+        cols = "%s\t%d\t0\t%d\t-\tchr1\t15\t2\t12\t9\t10\t60" % (NAME[0], qe + 5, qe)
     else:
-        cols = "r1\t%d\t0\t%d\t+\t<s2<s1\t15\t3\t13\t9\t10\t60" % (qe + 5, qe)
+        cols = "%s\t%d\t0\t%d\t+\t<s2<s1\t15\t3\t13\t9\t10\t60" % (NAME[0], qe + 5, qe)
     line = cols + "".join("\t" + x for x in opt)
     gfa = os.path.join(wd, "g.gfa")
     open(gfa, "w").write("".join(GFA_LINES))
@@ -520,7 +542,9 @@ def real_emit(wd, em, opt):
     import gc
 
     gc.collect()
-    ls = open(out).read().splitlines()
+    ls = open(out).read().split("\n")
+    if ls and ls[-1] == "":
+        ls = ls[:-1]
     if len(ls) != 1:
         return {"error": "%s wrote %d lines" % (em, len(ls))}
     return {"fields": ls[0].split("\t")}
